@@ -621,7 +621,7 @@ func (s *Entry) AddErrorWriter(wr io.Writer) *Entry {
 }
 
 func (s *Entry) RemoveErrorWriter(wr io.Writer) *Entry {
-	if s.writer == nil {
+	if s.writer != nil {
 		s.writer.RemoveErrorWriter(wr)
 	}
 	return s
